@@ -99,7 +99,9 @@ def quant_genexp(eng, gen, st, universal):
         if k == len(gen.generators):
             return eng.truth(eng.ev(gen.elt, s2), s2)
         g = gen.generators[k]
-        src = eng.ev(g.iter, s2)
+        # the outermost iterable is evaluated in the enclosing scope (facts assumed while evaluating
+        # it, e.g. a callee's postcondition, belong to the enclosing state)
+        src = eng.ev(g.iter, st if k == 0 else s2)
 
         def after_bind(s3):
             guards = []
@@ -115,7 +117,7 @@ def quant_genexp(eng, gen, st, universal):
         if isinstance(src, TupV):
             parts = []
             for item in src.items:
-                s3 = State(dict(s2.env), list(s2.pc))
+                s3 = s2.child(forward=True)
                 eng.assign(g.target, item, s3)
                 parts.append(after_bind(s3))
             if not parts:
@@ -136,7 +138,7 @@ def quant_genexp(eng, gen, st, universal):
             if not parts:
                 return z3.BoolVal(universal)
             return z3.And(parts) if universal else z3.Or(parts)
-        s3 = State(dict(s2.env), list(s2.pc))
+        s3 = s2.child(forward=False)
         if isinstance(src, SetV):
             xs = [fresh("qx") for _ in range(src.arity)]
             val = IntV(xs[0]) if src.arity == 1 else TupV([IntV(x) for x in xs])
@@ -152,7 +154,7 @@ def quant_genexp(eng, gen, st, universal):
         inner = after_bind(s3)
         return z3.ForAll(xs, z3.Implies(dom, inner)) if universal else z3.Exists(xs, z3.And(dom, inner))
 
-    return BoolV(rec(0, State(dict(st.env), list(st.pc))))
+    return BoolV(rec(0, st.child(forward=True)))
 
 
 # --------------------------------------------------------------- constructors
